@@ -361,6 +361,7 @@ class RecordingSocket:
 
 class ApiRig:
     """A real client (pyairtouch.connect) against a Console on the virtual loop."""
+    N_INIT = 0
 
     def __init__(self, inst: Installation, rng: Optional[random.Random] = None, latency_ticks: int = 1,
                  record_sends: bool = False) -> None:
@@ -455,6 +456,18 @@ class ApiRig:
     def init(self):
         """-> (result tuple, virtual ticks elapsed)"""
         t0 = self.now_ticks()
+        # an application may look at the object before initialising it (a settings page listing "no air conditioners
+        # yet"); what it saw then must not stick.  Every other initialisation in the process does so.
+        ApiRig.N_INIT += 1
+        if ApiRig.N_INIT % 2 == 0:
+            for name in ("air_conditioners", "initialised", "console_versions", "update_available", "model", "host",
+                         "name", "airtouch_id", "serial"):
+                try:
+                    v = getattr(self.at, name)
+                    if name == "air_conditioners":
+                        list(v)
+                except Exception:  # noqa: BLE001
+                    pass
         r = self.run(self.at.init())
         return r, self.now_ticks() - t0
 
